@@ -973,6 +973,10 @@ func (x *Explorer) inlinable(c ssa.CallInstruction, frames []frame) *ssa.Functio
 		return nil
 	}
 	f := EffCallee(c.(*ssa.Call)) // (a literal applied through a predicate HOF is entered like a helper)
+	if f == nil {
+		// a helper calling its function parameter: the literal written at the helper's call
+		f, _ = boundLiteral(c.(*ssa.Call), frames)
+	}
 	if f == nil || !x.P.Transparent(f) || f == x.Fn {
 		return nil
 	}
@@ -1150,6 +1154,28 @@ func (x *Explorer) Run() []Hit {
 							ns.tuple[x.rn(cv)] = ks
 						}
 					}
+					// what a cell of the caller was assigned inside (a literal applied on
+					// the spot setting a captured `ok`, `err`): keep what this path knows
+					for a, k := range ns.mem {
+						if !inHelper(k) || inHelper(a) {
+							continue
+						}
+						if tv, known := truthOfKey(k, ns); known {
+							if tv {
+								ns.mem[a] = "c:true"
+							} else {
+								ns.mem[a] = "c:false"
+							}
+						} else if isNil, known := truthOfKey(eqKey(k, "nil"), ns); known {
+							if isNil {
+								ns.mem[a] = "nil"
+							} else {
+								nk := "set:" + a
+								ns.mem[a] = nk
+								ns.Facts[eqKey(nk, "nil")] = false
+							}
+						}
+					}
 					ns.dropIf(inHelper)
 					for r := range ns.alias {
 						if inHelper(r) {
@@ -1181,11 +1207,20 @@ func (x *Explorer) Run() []Hit {
 				// deferred closures may store to captured cells; named
 				// error results keep their nil-ness (checked separately by
 				// DeferNilness).
+				plain := true // every deferred call is a library call that is handed no function (mu.Unlock, f.Close)
+				InstrsShallow(b.Parent(), func(di ssa.Instruction) {
+					if d, isD := di.(*ssa.Defer); isD && !runsNoModuleCode(x.P, d) {
+						plain = false
+					}
+				})
 				for a := range st.mem {
 					if !strings.HasPrefix(a, "new:") {
 						continue
 					}
 					if al := x.allocByName(a[4:]); al != nil && x.census.CellStoredByClosure(al) && !isErrorType(al.Type().(*types.Pointer).Elem()) {
+						if plain && !x.census.Escaped(al) {
+							continue
+						}
 						delete(st.mem, a)
 					}
 				}
@@ -1236,6 +1271,8 @@ func (x *Explorer) Run() []Hit {
 						mc, isMC := c.Common().Value.(*ssa.MakeClosure)
 						if hofMC != nil {
 							mc, isMC = hofMC, true
+						} else if _, bmc := boundLiteral(c.(*ssa.Call), it.frames); bmc != nil {
+							mc, isMC = bmc, true
 						}
 						if isMC {
 							// `func() {...}()`: free variables are the captured cells
@@ -1473,6 +1510,18 @@ func (x *Explorer) enterBlock(b, pred *ssa.BasicBlock, st *State) {
 func (x *Explorer) doStore(s *ssa.Store, st *State) {
 	ka := x.key(s.Addr, st)
 	kv := x.key(s.Val, st)
+	if isBoolType(s.Val.Type()) {
+		// a boolean whose truth is known on this path is stored as that truth:
+		// the cell then outlives the registers the value was computed from
+		// (a literal applied on the spot assigning a captured `ok`)
+		if tv, known := truthOfKey(kv, st); known {
+			if tv {
+				kv = "c:true"
+			} else {
+				kv = "c:false"
+			}
+		}
+	}
 	// classify the address
 	var field string
 	if fa, ok := s.Addr.(*ssa.FieldAddr); ok {
@@ -1568,6 +1617,10 @@ func (x *Explorer) invalidateOnCall(c ssa.CallInstruction, st *State) {
 			if al := x.allocByName(a[4:]); al != nil && !x.census.CellStoredByClosure(al) {
 				keep = true
 			} else if al != nil && isErrorType(al.Type().(*types.Pointer).Elem()) {
+				keep = true
+			} else if al != nil && !x.census.Escaped(al) && runsNoModuleCode(x.P, c) {
+				// written by literals of this function only: a library call that is
+				// handed no function cannot run them
 				keep = true
 			}
 		}
@@ -1771,4 +1824,56 @@ func (p *Prog) NonNilOnSuccess(fn *ssa.Function) bool {
 func isBoolType(t types.Type) bool {
 	b, ok := t.Underlying().(*types.Basic)
 	return ok && b.Kind() == types.Bool
+}
+
+// boundLiteral: c (inside the innermost inlined helper) calls a function
+// parameter of that helper, and the argument written at the helper's call is
+// a function literal: returns the literal and its MakeClosure.
+func boundLiteral(c *ssa.Call, frames []frame) (*ssa.Function, *ssa.MakeClosure) {
+	if len(frames) == 0 || c.Call.StaticCallee() != nil || c.Call.IsInvoke() {
+		return nil, nil
+	}
+	fr := frames[len(frames)-1]
+	v := c.Call.Value
+	if u, ok := v.(*ssa.UnOp); ok {
+		if st := localSingleStore(u); st != nil {
+			v = st.Val
+		}
+	}
+	q, ok := v.(*ssa.Parameter)
+	if !ok || q.Parent() != fr.fn {
+		return nil, nil
+	}
+	hc, isCall := fr.call.(*ssa.Call)
+	if !isCall || hc.Call.StaticCallee() != fr.fn {
+		return nil, nil
+	}
+	for i, fp := range fr.fn.Params {
+		if fp == q && i < len(hc.Call.Args) {
+			if mc, isMC := hc.Call.Args[i].(*ssa.MakeClosure); isMC {
+				if f, isF := mc.Fn.(*ssa.Function); isF && f.Parent() != nil {
+					return f, mc
+				}
+			}
+		}
+	}
+	return nil, nil
+}
+
+// runsNoModuleCode: c is a static call of a function outside the module that
+// receives no function value and no interface or pointer through which module
+// code could be reached by a callback (conservatively: no function-typed
+// argument, callee not in the module).
+func runsNoModuleCode(p *Prog, c ssa.CallInstruction) bool {
+	callee := c.Common().StaticCallee()
+	if callee == nil || p.InModule(callee) {
+		return false
+	}
+	for _, a := range c.Common().Args {
+		switch a.Type().Underlying().(type) {
+		case *types.Signature, *types.Interface:
+			return false
+		}
+	}
+	return true
 }
